@@ -164,6 +164,11 @@ def run_group(spec, group, ctext_spliced, workdir, timeout, trace=False, tag='')
         # every callee is either emitted from the repository or stubbed by the extractor: a missing body is a defect
         # of the machinery (runtime header / stub), never a verdict about the code
         r.failed = []; r.status = 'undecided'; r.reason = 'machinery defect: ' + '; '.join(sorted({o['desc'] for o in nobody}))[:300]; return r
+    unw = [o for o in r.failed if (o['desc'] or '').startswith('unwinding assertion')]
+    if unw and len(unw) == len(r.failed):
+        # only the unwinding bound is exceeded: the bounded stand-in does not cover the code any more (or the harness
+        # needs a larger bound) — undecided, never a violation
+        r.failed = []; r.status = 'undecided'; r.reason = 'unwinding bound too small: ' + '; '.join(sorted({'%s (%s)' % (o['desc'], o['function']) for o in unw}))[:300]; return r
     if vac:
         r.vacuity_ok = all(o['status'] == 'FAILURE' for o in vac)
     if r.failed:
